@@ -104,6 +104,30 @@ def _tag(state):
     return f
 
 
+def _tag_bound(same):
+    def f(it):
+        """The pid is already bound (to the requested cid / to another one): the call is
+        rejected; if a fault strikes first, the earlier binding must stay intact (C13)."""
+        w = World(it)
+        ctx = it.ctx
+        pid, cid = sym_str("pid"), sym_str("cid")
+        p, c = pid.term, cid.term
+        ctx.assume(z3.And(T.wsfree(p), T.ishex(c)))
+        w.add_pid(p)
+        w.add_cid(c)
+        ctx.assume(T.present(P_of(w.fs0, w.self, p)))
+        old = T.as_text(P_of(w.fs0, w.self, p))
+        ctx.assume(old == c if same else old != c)
+        sc = Sc(w, [w.self, pid, cid], pid=p, cid=c)
+        sc.spec = refs.tag_object
+        return sc
+    return f
+
+
+scenario("tag_object: pid already bound to the requested cid", F + "tag_object",
+         ("C13", "C08"))(_tag_bound(True))
+scenario("tag_object: pid bound to another cid", F + "tag_object", ("C13", "C08"))(_tag_bound(False))
+
 for _st in ("first pid of the cid", "additional pid of the cid"):
     scenario("tag_object: " + _st, F + "tag_object", ("C09", "C10", "C13", "C08"))(_tag(_st))
 
@@ -504,11 +528,11 @@ def run_fault(eng, lib, name, persist):
                 # X2: the pid is unbound and in no list (so it can be stored again at once),
                 # or its earlier binding is intact
                 Pn, P0 = P_of(fs_now, w.self, p), P_of(w.fs0, w.self, p)
-                unbound = T.is_Absent(Pn)      # then store_object(pid) succeeds at once
-                intact = z3.And(T.present(P0), Pn == P0)
+                # a pid that was unbound is unbound again (then store_object(pid) succeeds at
+                # once); a pid that was bound keeps exactly its earlier binding
                 ctx.oblige(f"{tag}/X2-failed-call-leaves-pid-unbound-or-as-before",
-                           z3.Or(unbound, intact), detail=f"{out[1]} after {site}",
-                           props=("C13",))
+                           z3.If(T.present(P0), Pn == P0, T.is_Absent(Pn)),
+                           detail=f"{out[1]} after {site}", props=("C13",))
             if fn.endswith("store_metadata"):
                 ml = meta_loc(w.self, p, sc.fmt)
                 ctx.oblige(f"{tag}/X3-failed-store-keeps-previous-document",
